@@ -251,6 +251,28 @@ def main(ctx, replay=None):
             if has_table:
                 records += row_records(col, rows.shape[0])
         ctx.sample({"invocation": list(picks[0][1:])})
+        # ---- a pressure grid in decimal steps: exactly NTV rows at P_MIN + k DELTA_P (column counts at which a floating-point arange of
+        #      that step comes out one entry too long are among them)
+        sc = StaticCase(rng, exports, None)
+        dd = Path(tempfile.mkdtemp(dir=tmp))
+        sc.write(dd, list(ORTHO9))
+        top = float(sc.pressure(sc.vol.min()) * G) * 0.8
+        for pm, dpv, nn in ((0.0, 0.1, 12), (0.0, 0.1, 101), (0.5, 0.1, 24), (0.0, 0.2, 36), (1.0, 0.3, 16)):
+            if pm + dpv * (nn - 1) >= top:
+                continue
+            args = [str(dd / "input01"), "-I", "pressure", "-n", str(nn), "--p-min", repr(pm), "--delta-p", repr(dpv)]
+            case = {"mode": "pressure", "decimal_grid": [pm, dpv, nn]}
+            ctx.count(case)
+            r = CliRunner().invoke(static_main, args)
+            if r.exit_code != 0:
+                ctx.violation(f"cij run-static {' '.join(args[1:])} failed: {r.exception!r}", case, {"mode": "pressure", "table": False, "clause": "raises", "exc": type(r.exception).__name__})
+                continue
+            cols, rows = parse(r.output)
+            pcol = rows[:, cols.index("P")] if "P" in cols else numpy.array([])
+            want = pm + dpv * numpy.arange(nn)
+            if len(pcol) != nn or not numpy.allclose(pcol, want, rtol=0, atol=2e-3):
+                ctx.violation(f"cij run-static -I pressure --p-min {pm} --delta-p {dpv} -n {nn}: {len(pcol)} rows, pressures {pcol[:2].tolist()}..{pcol[-2:].tolist()}; "
+                              f"requested: {nn} rows from {want[0]:g} to {want[-1]:g} GPa", case, {"mode": "pressure", "table": False, "clause": "rows"})
         if records:
             usable = [r for r in records if r["pd"]]
             ok, consumed, _ = validate_trace(ctx, "Trace_Averages", "Trace_Averages.cfg", usable, name="static_rows", timeout=600)
